@@ -7,7 +7,8 @@
 //                   several source cells in sequence (reset), incl. partial runs, revisits and
 //                   repeated calls for an unchanged source cell
 //   mode quantile : one law per case: icdf at several percentages, pdf at several points,
-//                   GammaKernel::cdf
+//                   GammaKernel::cdf, and direct constructions of the law's class with each parameter
+//                   valid, 0 and negative (det.ctor <law> <scale> <shape> => ok | err:*)
 //   mode factory  : the same protocol for kernels built from a Config (dispersal_stochasticity off) through
 //                   create_natural_kernel / create_anthro_kernel / create_dynamic_kernel; the det.new line
 //                   carries the configured parameters
@@ -82,6 +83,37 @@ static double law_pdf(int li, double scale, double shape, double x) {
     case 8: return GammaKernel(scale, shape).pdf(x);
     default: return ExponentialPowerKernel(scale, shape).pdf(x);
     }
+}
+
+// Direct construction of the class the deterministic kernel holds for law `li`, with the same
+// constructor arguments (scale, shape) as law_icdf / law_pdf.  What each constructor validates on
+// the unchanged tree (the driver's `lawCtorCheck` mirrors exactly this):
+//   CauchyKernel(s)               s <= 0                     -> invalid_argument
+//   ExponentialKernel(b)          b <= 0                     -> invalid_argument
+//   WeibullKernel(scale, shape)   shape <= 0 || scale <= 0   -> invalid_argument
+//   NormalKernel(s)               s == 0 only                -> invalid_argument (a NEGATIVE sigma is not validated: ok)
+//   LogNormalKernel(s)            s <= 0                     -> invalid_argument
+//   HyperbolicSecantKernel(s)     s == 0 only                -> invalid_argument (a NEGATIVE s is not validated: ok)
+//   PowerLawKernel(a, xm)         xm == 0 only               -> invalid_argument (alpha is not validated at all, the check
+//                                                               is commented out in the source; a NEGATIVE xmin: ok)
+//   LogisticKernel(s)             s <= 0                     -> invalid_argument
+//   GammaKernel(a, t)             a <= 0 || t <= 0           -> invalid_argument
+//   ExponentialPowerKernel(a, b)  a <= 0 || b <= 0           -> invalid_argument
+static std::string law_ctor(int li, double scale, double shape) {
+    return ::verif::err_kind([&] {
+        switch (li) {
+        case 0: { CauchyKernel k(scale); (void)k; break; }
+        case 1: { ExponentialKernel k(scale); (void)k; break; }
+        case 2: { WeibullKernel k(scale, shape); (void)k; break; }
+        case 3: { NormalKernel k(scale); (void)k; break; }
+        case 4: { LogNormalKernel k(scale); (void)k; break; }
+        case 5: { HyperbolicSecantKernel k(scale); (void)k; break; }
+        case 6: { PowerLawKernel k(scale, shape); (void)k; break; }
+        case 7: { LogisticKernel k(scale); (void)k; break; }
+        case 8: { GammaKernel k(scale, shape); (void)k; break; }
+        default: { ExponentialPowerKernel k(scale, shape); (void)k; break; }
+        }
+    });
 }
 
 // Random parameters in the law's domain, off the diagonal scale = shape, power-law alpha > 1.
@@ -254,17 +286,15 @@ static void factory_case(::verif::Case& c) {
     int side = (int)((c.index / 10) % 2);          // 0: natural kernel under test, 1: anthropogenic
     int via = (int)((c.index / 20) % 2);           // 0: create_*_kernel, 1: create_dynamic_kernel
     Dy scale, shape; random_params(rng, li, scale, shape);
-    int lo = rng.in(0, 9); Dy oscale, oshape_unused; random_params(rng, lo, oscale, oshape_unused);
-    // one shape for both kernels (Config has a single shape): it must be in the domain of both laws
-    if (lo == 2 && shape.num < 8) lo = 0;
-    if (lo == 9 && shape.num < 4) lo = 0;
-    if (lo == 6 && oscale.num <= 8) oscale.num = 12;
-    if (oscale.num == scale.num) oscale.num += 3;
     Dy pct = Dy{rng.in(33, 63), 64};
-    if (two_sided(lo)) {}  // the other kernel is built too; pct > 1/2 keeps its window in the domain
     Dy ns{16, 16}, ew{16, 16};
     choose_resolutions(rng, li, scale, shape, pct, ns, ew);
     if (ns.num == ew.num && rng.coin(85)) ew.num = ns.num + rng.in(1, 24);
+    // the kernel on the other side is built too (create_dynamic_kernel builds both): an exponential law whose
+    // window stays small at these resolutions (a heavy-tailed law at a fine resolution asks for a window of
+    // billions of cells, whose size overflows int - outside any usable configuration, see DESIGN 8.4)
+    int lo = 1; Dy oscale{std::max(1L, std::min(ns.num, ew.num)), 8};
+    if (oscale.num * scale.den == scale.num * oscale.den) oscale.num += 1;
     stats.add(std::string("factory_law_") + LAWS[li]); stats.add(side ? "factory_anthro" : "factory_natural"); stats.add(via ? "factory_dynamic" : "factory_direct");
     if (ns.num != ew.num) stats.add("ns_ne_ew");
     Config config;
@@ -355,6 +385,17 @@ static void quantile_case(::verif::Case& c) {
     if (li == 8) for (int t = 0; t < 4; t++) {
         double x = rng.in(1, 640) / 32.0;
         out << "det.gcdf " << scale.s() << " " << shape.s() << " " << bits(x) << " => " << bits(GammaKernel(scale.v(), shape.v()).cdf(x)) << "\n";
+    }
+    // constructor validation: every parameter valid / 0 / negative, one at a time and both
+    {
+        Dy sv[3] = {scale, Dy{0, scale.den}, Dy{-scale.num, scale.den}};
+        Dy hv[3] = {shape, Dy{0, shape.den}, Dy{-shape.num, shape.den}};
+        int nh = uses_shape(li) ? 3 : 1;   // one-parameter classes do not receive the shape
+        for (int a = 0; a < 3; a++) for (int b = 0; b < nh; b++) {
+            std::string e = law_ctor(li, sv[a].v(), hv[b].v());
+            out << "det.ctor " << LAWS[li] << " " << sv[a].s() << " " << hv[b].s() << " => " << (e.empty() ? "ok" : e) << "\n";
+            stats.add(e.empty() ? "ctor_accepted" : "ctor_rejected");
+        }
     }
     c.nontrivial = true;
 }
